@@ -146,6 +146,11 @@ Theorem C04_sequential_loose_only_stale_runflag :
 Proof. exact sequential_loose_only_stale_runflag. Qed.
 Print Assumptions C04_sequential_loose_only_stale_runflag.
 
+Theorem C04_overlap_loose_quiescent_classified :
+  forall s, oreach true pol_any s -> quiescent s = true -> qgood s = true \/ symptom_loose s = true.
+Proof. exact overlap_loose_quiescent_classified. Qed.
+Print Assumptions C04_overlap_loose_quiescent_classified.
+
 Theorem C04_overlap_stop_end_refuted :
   exists s, oreach false pol_any s /\ quiescent s = true /\
             o_rs s = RStopping /\ o_ps s = PEnded /\ worker_dead s = true /\ qgood s = false.
